@@ -174,6 +174,7 @@ func charKind(r rune) string {
 // formatting fragment (DESIGN C03): statements joined by separators from {"\n", "\n\n", "; "}.
 var c03Stmts = []string{
 	"a", "a: b", "a.b.c: x", "a -> b", "a -> b -> c: l", "a <-> b: {style.stroke: red}", "(a -> b)[0]: x", "(a -> b)[0].style.opacity: 0.4",
+	"(a -> b).style.stroke: red", "(a <- b -> c).label: hi", "w.(a -> b).style.stroke: red", "w.(a -> b)[0]: e", "(a -> b)[*].x: y",
 	"# comment", "a # trailing", "\"\"\" block\ncomment \"\"\"", "a: {b; c}", "a: {\n  b\n\n\n  c\n}", "a: [1; 2]", "a: [\n 1\n 2\n]", "a: [[1]; x]",
 	"a: |md x|", "a: |md\n  # t\n  x | y\n|", "a: ||md x | y ||", "a: |`md x || y `|", "a: |||x|||", "|md k|: v",
 	"layers: {l: {x}}", "scenarios: {s: {y}}", "steps: {1: {z}}", "...@x", "a: @x", "a: {...@x}", "...@\"./x.d2\"", "a: @../y", "a: @x.k",
@@ -375,7 +376,7 @@ func deBruijnish(n int) string {
 func init() {
 	eng.Register(&eng.Check{
 		ID: "C03", Level: "exploration", Pre: WriteCorpusCache,
-		Rule: "every token string over Σ_t up to the phase length, every sequence of formatting-fragment statements (92 statements × 3 separators) up to the phase length, every statement at every nesting depth 0..24 (multi-line maps, one-line maps, arrays), the corpus and its single-token neighbours; inputs that parse with errors are skipped (trivial); non-trivial = error-free with at least one node; oracle: Format(Parse(x)) parses without error and is a fixpoint of Format∘Parse",
+		Rule: "every token string over Σ_t up to the phase length, every sequence of formatting-fragment statements (97 statements × 3 separators) up to the phase length, every statement at every nesting depth 0..24 (multi-line maps, one-line maps, arrays), the corpus and its single-token neighbours; inputs that parse with errors are skipped (trivial); non-trivial = error-free with at least one node; oracle: Format(Parse(x)) parses without error and is a fixpoint of Format∘Parse",
 		Oracles: map[string]eng.Oracle{"idem": c03Oracle},
 		Run: func(w *eng.W) {
 			for k := 1; k <= w.Pick(3, 4); k++ {
